@@ -318,6 +318,56 @@ def fheader_obligations():
         o.append(Ob('hmac_gethmac_h%d' % ht, P, enforce='hmac__gethmac', replace=['hmac__getres'], unwind=34, defines=dh, **FH))
         o.append(Ob('hmac_writeFileHmac_h%d' % ht, P + ['C13'], enforce='hmac__writeFileHmac', replace=['hmac__getres', 'wv_fseek', 'wv_fwrite'], unwind=34, defines=dh, **FH,
                     note='one fwrite of exactly hlen bytes at writeMark, after hashing [hashMark, EOF)' + tn))
+    PR = ['C05', 'C06', 'C11', 'C12']
+    fr = ['wv_fseek', 'wv_fread']
+    o.append(Ob('fheader_checkMn', PR, enforce='FileHeader__checkMn', replace=fr, **FH))
+    o.append(Ob('fheader_checkType', PR, enforce='FileHeader__checkType', replace=fr, **FH))
+    o.append(Ob('fheader_getHmac', PR, enforce='FileHeader__getHmac', replace=fr, **FH))
+    o.append(Ob('fheader_getIV_file', PR + ['C01'], enforce='FileHeader__getIV_2', replace=fr, **FH))
+    o.append(Ob('fheader_getIV_seed', ['C02', 'C18'], enforce='FileHeader__getIV_1', unwind=18, timeout=600, defines=['WV_HM_BIG'], **FH,
+                args='  FileHeader__getIV_1(wv_a0, wv_a1, wv_a2);',
+                replace=['Hashmaster__getStringHash', 'wv_strlen'], note='IV 0 = SHA-1(seed), IV i = SHA-1(IV i-1): asserted through the hash call log for T <= 16'))
+    o.append(Ob('fheader_getFileHeader', ['C02', 'C13', 'C08'], enforce='FileHeader__getFileHeader', replace=['wv_fwrite'], unwind=18, timeout=600, **FH,
+                note='every header byte written exactly once with the documented value (observed at an arbitrary output offset)'))
+    return o
+
+
+CRY = dict(contracts=['cry.h'], defines=['WV_USE_SPEC_AES'])
+# proof-build chunk size (DESIGN.md 2.4): 2 blocks = 32 bytes per buffer instead of 16 MiB
+BUFSZ = ['iobuffer__BUF_SZ=2u', 'iobuffer__sum=32u']
+T_VALUES = list(range(1, 17))
+T_QUICK = (1, 2, 16)
+
+
+def cry_obligations():
+    o = []
+    PV = ['C05', 'C06', 'C11', 'C12']
+    o.append(Ob('cry_verify', PV, enforce='runcrypt__verify', timeout=900, **CRY,
+                replace=['FileHeader__checkMn', 'FileHeader__checkType', 'wv_fseek', 'wv_fread', 'hmac__cmphmac'],
+                note='verdict 0 iff magic, known mode numbers, 74 bytes, and all tag bytes equal the HMAC of [48, EOF) under the file\'s hash mode'))
+    for nm, dd in (('', []), ('_noout', ['WV_OUT_NULL'])):
+        o.append(Ob('cry_over' + nm, PV + ['C15'], enforce='runcrypt__over', replace=['wv_fclose'], contracts=['cry.h'], defines=['WV_USE_SPEC_AES'] + dd))
+        o.append(Ob('cry_execute_verify' + nm, PV + ['C15'], enforce='runcrypt__execute_verify', replace=['runcrypt__verify', 'runcrypt__over'], timeout=600,
+                    contracts=['cry.h'], defines=['WV_USE_SPEC_AES'] + dd,
+                    note='returns verify() == 0; no file is written (frame); process-global state untouched' + (' (no output file given)' if dd else '')))
+    o.append(Ob('cry_prepare_IV_file', PV + ['C01'], enforce='runcrypt__prepare_IV_2', replace=['FileHeader__getIV_2'], **CRY))
+    o.append(Ob('cry_prepare_IV_seed', ['C02', 'C18', 'C13'], enforce='runcrypt__prepare_IV_1', replace=['FileHeader__getIV_1', 'FileHeader__getFileHeader'], **CRY))
+    for T in T_VALUES:
+        dT = ['WV_USE_SPEC_AES', 'WV_T_FIX=%d' % T] + BUFSZ
+        tn = ' (T = %d worker threads)' % T
+        tier = 'quick' if T in T_QUICK else 'thorough'
+        o.append(Ob('cry_prepare_AES_T%d' % T, ['C02', 'C18', 'C01', 'C11', 'C15'], enforce='runcrypt__prepare_AES', unwind=18, timeout=900, contracts=['cry.h'], defines=dT, tier=tier,
+                    replace=['wv_fseek', 'buffergroup__get_instance', 'buffergroup__set_buffergroup', 'AesFactory__createCryMaster'],
+                    note='T stream objects of the class for (direction, mode), each from the user key; envelope for the recorded finding: IV i or IV 0' + tn))
+        o.append(Ob('cry_prepare_AES_C18_T%d' % T, ['C18'], enforce='runcrypt__prepare_AES', unwind=18, timeout=900, contracts=['cry.h'], defines=dT + ['WV_C18_PROPERTY'], tier=tier,
+                    replace=['wv_fseek', 'buffergroup__get_instance', 'buffergroup__set_buffergroup', 'AesFactory__createCryMaster'],
+                    note='the property itself: stream i is started from IV i' + tn))
+        o.append(Ob('cry_execute_decrypt_T%d' % T, PV + ['C15'], enforce='runcrypt__execute_decrypt', timeout=900, contracts=['cry.h'], defines=dT + ['WV_FACTORY_LIGHT'], tier=tier,
+                    # prepare_AES and the instance set-up are the real code here: a pointer that is only *assumed* equal (by a replaced
+                    # contract) cannot be dereferenced efficiently by CBMC, and the pipeline summary reaches the files through the instance
+                    replace=['runcrypt__verify', 'runcrypt__prepare_IV_2', 'wv_fseek', 'AesFactory__createCryMaster', 'multicry_master__run_multicry',
+                             'runcrypt__release', 'runcrypt__over'], unwind=T + 2,
+                    note='same verdict as verify; output written only after a 0 verdict and bounded by the body length; global state fresh again' + tn))
     return o
 
 
@@ -386,4 +436,4 @@ void h_b64_validator_other_lengths(void)
 
 
 def all_obligations():
-    return aes_obligations() + mode_obligations() + hash_obligations() + fheader_obligations() + b64_obligations()
+    return aes_obligations() + mode_obligations() + hash_obligations() + fheader_obligations() + cry_obligations() + b64_obligations()
